@@ -340,6 +340,9 @@ int __wrap_pthread_cond_broadcast(pthread_cond_t *c) {
   if (!me || !g_on) return __real_pthread_cond_broadcast(c);
   sched_point();
   note_signal('B', c);
+  /* self-test: a lost wake-up of a writer, whichever primitive the library uses to wake it */
+  if (p_dropsig > 0 && c != g_bgcv && tid_of_addr(c) >= 0 &&
+      __atomic_add_fetch(&n_wsig, 1, __ATOMIC_SEQ_CST) == p_dropsig) { n_dropped++; return 0; }
   if (p_dropbc > 0 && c == g_bgcv &&
       __atomic_add_fetch(&n_bgbc, 1, __ATOMIC_SEQ_CST) >= p_dropbc) { n_dropped++; return 0; }  /* self-test: lost broadcasts */
   return __real_pthread_cond_broadcast(c);
